@@ -17,12 +17,11 @@ pub(crate) mod clock {
     pub(crate) use crate::time::CLOCK_MIN_SECS;
 
     /// Start the virtual clock at an arbitrary instant `>= one week` (what the real clock
-    /// guarantees, see time.rs) and below ~31 years, with arbitrary sub-second part.
+    /// guarantees, see time.rs) and below ~34 years, with arbitrary sub-second part.
     pub(crate) fn start_symbolic() -> Duration {
-        let secs: u64 = kani::any();
-        let nanos: u32 = kani::any();
-        kani::assume(secs >= CLOCK_MIN_SECS && secs < 1_000_000_000);
-        kani::assume(nanos < 1_000_000_000);
+        // every raw value is a valid choice (keeps the native sanity runs useful)
+        let secs: u64 = CLOCK_MIN_SECS + (kani::any::<u32>() >> 2) as u64;
+        let nanos: u32 = kani::any::<u32>() % 1_000_000_000;
         let d = Duration::new(secs, nanos);
         crate::time::set_now(d);
         d
@@ -69,9 +68,17 @@ pub(crate) fn symbolic_duration(max_secs: u64) -> Duration {
 // result being *a permutation* of the block.
 // ---------------------------------------------------------------------------------------------
 
+static mut PERMUTE_IDENTITY: bool = false;
+
+/// Harnesses that are not about the order inside a block may pin the hook to the identity
+/// permutation (a symbolic transposition on a 2048-entry block is expensive, DESIGN.md F14).
+pub(crate) fn set_permute_identity(on: bool) {
+    unsafe { PERMUTE_IDENTITY = on }
+}
+
 pub(crate) fn permute(ids: &mut [u64]) {
     let n = ids.len();
-    if n < 2 {
+    if n < 2 || unsafe { PERMUTE_IDENTITY } {
         return;
     }
     let a: usize = kani::any();
